@@ -4,3 +4,4 @@ import DDProofs.Ext
 import DDProofs.Inv
 import DDProofs.DddmpLists
 import DDProofs.DddmpProofs
+import DDProofs.DddmpHeader
